@@ -32,6 +32,7 @@ ASSUMPTIONS = ['the reference is the class itself on the history-free path (cons
 REQUIRED_ANCHORS = ('Spectrum._getPSD', 'Spectrum._setSides', 'Spectrum._setNFFT', 'Spectrum._setData')
 
 DATA = {}
+CPLX = ('C', 'Az')          # names of the complex-typed records
 _TR = set()
 FOURIER = ('Periodogram', 'pcorrelogram')
 INIT = {
@@ -45,7 +46,7 @@ INIT = {
 
 
 def alphabet(cls):
-    ops = [('data', 'A'), ('data', 'B'), ('data', 'C'),
+    ops = [('data', 'A'), ('data', 'B'), ('data', 'C'), ('data', 'Az'),
            ('NFFT', 40), ('NFFT', 41), ('NFFT', 'nextpow2'), ('NFFT', 'same'), ('NFFT', 'none'), ('data', 'Alist'),
            ('sampling', 2.5), ('sampling', 'same'),
            ('scale_by_freq', True), ('scale_by_freq', False),
@@ -95,6 +96,7 @@ def setup(c):
     DATA['A'] = gen.data({'kind': 'ar', 'N': 32, 'cplx': False, 'p': 3}, rng)
     DATA['B'] = gen.data({'kind': 'tones', 'N': 24, 'cplx': False, 'K': 2}, rng)
     DATA['C'] = gen.data({'kind': 'ar', 'N': 32, 'cplx': True, 'p': 3}, rng)
+    DATA['Az'] = DATA['A'].astype(complex)       # the samples of A declared complex (imaginary part exactly zero)
 
 
 def calls_of(cls):
@@ -200,10 +202,10 @@ def run_case(c, d):
 
     def observe(what):
         nonlocal ncalls, sides_log, changed
-        feats = dict(feats0, datatype='complex' if st['data'] == 'C' else 'real', nfft_odd=bool(st['NFFT'] % 2),
+        feats = dict(feats0, datatype='complex' if st['data'] in CPLX else 'real', nfft_odd=bool(st['NFFT'] % 2),
                      stale_after='+'.join(sorted(set(changed))) or 'nothing', read=what)
         target = what.split(':', 1)[1] if what.startswith('converted:') else None
-        if target == 'onesided' and st['data'] == 'C':
+        if target == 'onesided' and st['data'] in CPLX:
             target = None                       # forbidden for complex data
         conv = None
         fr_first = None
@@ -360,7 +362,7 @@ def run_case(c, d):
                 st['ma_order'] = val
             elif kind == 'sides':
                 target = live.sides if val == 'same' else val
-                if target == 'onesided' and st['data'] == 'C':
+                if target == 'onesided' and st['data'] in CPLX:
                     c.discard('op:onesided-for-complex-data-is-forbidden')
                     continue
                 live.sides = target
@@ -394,9 +396,9 @@ def run_case(c, d):
             except Exception:
                 c.discard('op-out-of-domain:%s' % kind)
                 return
-            fx = dict(feats0, op=kind, datatype='complex' if st['data'] == 'C' else 'real')
+            fx = dict(feats0, op=kind, datatype='complex' if st['data'] in CPLX else 'real')
             chx = None
-            if kind == 'plot' and st['data'] != 'C' and st['NFFT'] % 2:
+            if kind == 'plot' and st['data'] not in CPLX and st['NFFT'] % 2:
                 # F08 seen through plot(): for real data and odd NFFT the private two-sided layout has NFFT-1 values,
                 # which plot() itself refuses to draw against the NFFT-entry axis
                 fx['layout'] = 'private-nyquist-last'
